@@ -1,5 +1,6 @@
 import DoitModel.Proofs.C13Forget
 import DoitModel.Proofs.C13Ignore
+import DoitModel.Proofs.C13Reset
 /-! # C13 — forget, ignore and reset-dep have exactly their documented effect
 
 Model: `Model/Cmds.lean` (task graph, target lists of the three commands, a run that honours ignore marks) on the
@@ -68,6 +69,25 @@ theorem C13_pinned_forget_counterexample :
     forgetTarget false gEx ⟨[], false, false, false⟩ none = .crash ∧
     forgetTarget false gEx ⟨[], true, false, false⟩ none = .crash ∧
     forgetTarget true gEx ⟨[], false, false, false⟩ none = .tasks [0, 1, 2, 3, 3, 4] := by decide
+
+/-- **forget (next run).**  A forgotten task -- its record is empty, `C13_forget` -- whose up-to-date decision consults
+    saved state (it has a file dependency) is not skipped as up-to-date in the next run, whatever the selection, the
+    hand-over order and the other tasks do (`status_of_empty_record`: the status is `run`, or `error` when a
+    dependency is missing).  Tasks whose only criteria are constant `uptodate` items are documented to be up-to-date
+    without saved state (DESIGN §5, readings). -/
+theorem C13_forgotten_not_skipped (g : Graph) (s : St) (order : List Name) (always : Bool) (plan : Name → Plan)
+    (hnd : order.Nodup) (t : Name) (ht : t ∈ order) (hr : s.rcd t = Rcd.empty) (hd : (s.defs t).deps ≠ []) :
+    ∃ o, outOf (runAll true always g plan s order) t = some o ∧ o ≠ .upToDate :=
+  runAll_forgotten true always g plan s order hnd t ht hr hd
+
+/-- ... and when nothing else stands in the way (no ignored / failed dependency or setup-task, every file
+    dependency present) it is executed -/
+theorem C13_forgotten_status (fixed : Bool) (s : St) (t : Name) (hr : s.rcd t = Rcd.empty)
+    (hd : (s.defs t).deps ≠ []) (hp : (s.defs t).deps.any (depMissing s.fs) = false) : s.status fixed t = .run := by
+  unfold St.status; rw [hr]
+  rcases statusOf_empty fixed s.checker (s.defs t) s.fs s.resOf hd with h | h
+  · exact h
+  · rw [hp] at h; exact absurd h.2 (by simp)
 
 /-! ## ignore -/
 
@@ -170,5 +190,85 @@ theorem C13_ignore (g : Graph) (names l : List Name) (s0 : St) (h : List COp) (T
     | dep hd _ ih => exact IgnReach.dep hd ih
   have := C13_ignore_run g _ order always plan hnd hbad t ht
   exact ⟨fun hr => this.1 (mono t hr), fun ⟨d, hd, hr⟩ => this.2 ⟨d, hd, mono d hr⟩⟩
+
+/-- non-vacuity of `C13_ignore_run`: `1` has `task_dep=[0]`, `2` has `setup=[0]` and would run, `3` is unrelated;
+    `0` is ignored: `0` and `1` are reported ignored, `2` is not executed, `3` executes; the order flag is clean -/
+def gIgn : Graph :=
+  { names := [0, 1, 2, 3]
+    taskDep := fun t => if t = 1 then [0] else []
+    setup := fun t => if t = 2 then [0] else []
+    subOf := fun _ => none }
+
+def sIgn : St := setIgn (initC (fun _ => TaskDef.empty) .md5) 0
+def noPlan : Name → Plan := fun _ => ⟨true, [], none⟩
+
+example : (runAll true false gIgn noPlan sIgn [0, 1, 2, 3]).out.reverse =
+    [(0, .ignored), (1, .ignored), (2, .ignored), (3, .ok)] ∧
+    (runAll true false gIgn noPlan sIgn [0, 1, 2, 3]).bad = false := by decide
+
+/-- F-C05 / F-C13b, the pinned tree: the second `select_task` pass does not look at the setup-tasks' reports: task `2`
+    (setup-task `0` ignored) is executed; the repaired code reports it ignored -/
+theorem C13_pinned_setup_counterexample :
+    outOf (runAll false false gIgn noPlan sIgn [0, 1, 2, 3]) 2 = some .ok ∧
+    outOf (runAll true false gIgn noPlan sIgn [0, 1, 2, 3]) 2 = some .ignored := by decide
+
+/-! ## reset-dep -/
+
+/-- **reset-dep.**  `doit reset-dep names` (all names known; none = every task), no `TypeError` of a checker on a
+    state of the other checker's shape (`crashed`, M2's explicit error state): the command acts on the named tasks
+    and their sub-tasks; no other record changes; for a selected task with a missing file dependency nothing is
+    recorded; for every other selected task the record afterwards judges each file dependency unmodified against the
+    present file, values and result are the saved ones, and its status is up-to-date unless an early exit of
+    `get_status` fires: a false `uptodate` item, a missing target, or no dependency at all. -/
+theorem C13_resetdep (g : Graph) (names l : List Name) (s : St) (h : resetTarget g names = .tasks l)
+    (hc : (resetCmd g names s).crashed = false) :
+    (∀ x, x ∈ l ↔ (names = [] ∧ x ∈ g.names) ∨ x ∈ names ∨ ∃ t ∈ names, x ∈ subtasks g t) ∧
+    (∀ t, t ∉ l → (resetCmd g names s).rcd t = s.rcd t) ∧
+    (∀ t, (s.defs t).deps.any (depMissing s.fs) = true → (resetCmd g names s).rcd t = s.rcd t) ∧
+    (∀ t, t ∈ l → (s.defs t).deps.any (depMissing s.fs) = false →
+      resetRecOk s.checker (s.defs t) (s.rcd t) ((resetCmd g names s).rcd t) s.fs = true ∧
+      (resetCmd g names s).status true t =
+        if earlyRun (s.defs t) ((resetCmd g names s).rcd t).getValues (resetCmd g names s).resOf s.fs then .run
+        else .upToDate) ∧
+    (resetCmd g names s).fs = s.fs ∧ (resetCmd g names s).defs = s.defs := by
+  have hcmd : resetCmd g names s = resetList s l := by simp [resetCmd, h]
+  rw [hcmd] at hc ⊢
+  obtain ⟨fr, ffs, fdefs, fck⟩ := resetList_frame l s
+  refine ⟨?_, fr, fun t hm => resetList_missing l s t hm, ?_, ffs, fdefs⟩
+  · intro x
+    unfold resetTarget at h
+    by_cases hn : names = []
+    · subst hn
+      simp only [List.isEmpty_nil, if_true] at h
+      injection h with h; subst h
+      simp
+    · have hne : names.isEmpty = false := by cases names <;> simp_all
+      simp only [hne, Bool.false_eq_true, if_false] at h
+      split at h
+      · cases h
+      · injection h with h; subst h
+        rw [mem_withSubs]; simp [hn]
+  · intro t ht hm
+    obtain ⟨h1, h2⟩ := resetList_present l s hc t ht hm
+    refine ⟨h1, ?_⟩
+    unfold St.status
+    rw [fck, fdefs, ffs]
+    exact statusOf_of_lateOk _ _ _ _ _ h2
+
+/-- non-vacuity: task 0 (`file_dep=[f0]`, target `f1`, both files present, saved state of another content) is not
+    up-to-date; after `reset-dep` it is, its values and result are the saved ones, and the record changed -/
+def sReset : St :=
+  let d : TaskDef := ⟨[0], [1], []⟩
+  let s0 := initC (fun t => if t = 0 then d else TaskDef.empty) .md5
+  let s1 := step true (step true s0 (.edit 0 4 1)) (.edit 1 4 2)
+  let s2 := runTask true s1 0 true false [] (some 7)
+  step true s2 (.edit 0 5 3)
+
+def gOne : Graph := { names := [0], taskDep := fun _ => [], setup := fun _ => [], subOf := fun _ => none }
+
+example : sReset.status true 0 = .run ∧ (resetCmd gOne [] sReset).status true 0 = .upToDate ∧
+    ((resetCmd gOne [] sReset).rcd 0).result = some 7 ∧ (resetCmd gOne [] sReset).crashed = false ∧
+    ((resetCmd gOne [] sReset).rcd 0).fstate 0 = some (.md5 3 5 3) ∧ (sReset.rcd 0).fstate 0 = some (.md5 1 4 1) := by
+  decide
 
 end DoitModel.C13
